@@ -1,0 +1,13 @@
+//go:build verif
+
+package lexer
+
+// VerifTick, when set, is called once per iteration of the lexer's scanning
+// loop, so that a harness can bound the number of iterations.
+var VerifTick func()
+
+func verifTick() {
+	if VerifTick != nil {
+		VerifTick()
+	}
+}
